@@ -125,6 +125,18 @@ pub fn check_logical(l: &Logical) -> Vec<(String, String)> {
         let i = bs.iter().zip(ba.iter()).position(|(x, y)| x != y).unwrap_or(bs.len().min(ba.len()));
         bad.push(("uncompressed-bytes-differ".into(), format!("without a codec the sync and async writers must emit identical bytes; lengths {} vs {}, first difference at {i}", bs.len(), ba.len())));
     }
+    // the async writer over a sink that answers Pending once per call and takes at most 7 (small archives) or 1000
+    // bytes per write: same bytes as over the always-ready sink (the sync writer has no such dimension)
+    if ba.len() < 2_000_000 {
+        match write_lib_async_slow(l, if ba.len() < 600 { 7 } else { 1000 }) {
+            Ok(slow) if slow == ba => {}
+            Ok(slow) => {
+                let i = slow.iter().zip(ba.iter()).position(|(x, y)| x != y).unwrap_or(slow.len().min(ba.len()));
+                bad.push(("async-writer-depends-on-pending".into(), format!("the async writer emits different bytes into a sink that is Pending once per call (lengths {} vs {}, first difference at {i})", slow.len(), ba.len())));
+            }
+            Err(e) => bad.push(("async-writer-fails-on-pending-sink".into(), e)),
+        }
+    }
     let probes = probes_for(l, &[]);
     let ids: Vec<u64> = l.tiles.keys().copied().collect();
     let mut views = Vec::new();
@@ -264,7 +276,7 @@ fn check_header_bytes(b: &[u8]) -> Option<(String, String)> {
 pub fn run(tier: &str) -> i32 {
     let rep = Report::new("C12", tier, "exploration");
     let thorough = rep.thorough();
-    rep.rule("both API twins on ready-immediately streams over the inputs of C01 (all small maps, metadata/settings alphabets), C03 (foreign product), C05 (all lists of <= 2 entries), C06 (crossing sweep) and C09 (stored-value sweep, enum/version/magic/truncation cases), plus the rejection inputs of C19; readers: equal values (model view + hook snapshot, directories, headers field-wise, maps) or errors on both sides; writers: outputs read back to equal content by both readers and byte-identical for Compression::None; full and four range-filtered opens, and opens of a stream handed over at position 1 / 127 / its end; non-trivial = inputs with >= 1 tile/entry");
+    rep.rule("both API twins on ready-immediately streams over the inputs of C01 (all small maps, metadata/settings alphabets), C03 (foreign product), C05 (all lists of <= 2 entries), C06 (crossing sweep) and C09 (stored-value sweep, enum/version/magic/truncation cases), plus the rejection inputs of C19; readers: equal values (model view + hook snapshot, directories, headers field-wise, maps) or errors on both sides; writers: outputs read back to equal content by both readers and byte-identical for Compression::None, and the async writer's bytes unchanged over a sink that is Pending once per call and takes 7 / 1000 bytes per write; full and four range-filtered opens, and opens of a stream handed over at position 1 / 127 / its end; non-trivial = inputs with >= 1 tile/entry");
     // (a) logical archives
     let mut items: Vec<Logical> = Vec::new();
     for c in COMPS {
@@ -382,7 +394,9 @@ pub fn run(tier: &str) -> i32 {
     // rejection inputs: both sides must refuse
     let mut nrej = 0u64;
     for comp in 1..=4u8 {
-        for meta in ["null", "[]", "\"s\"", "0"] {
+        // non-objects, and an object followed by something else (a second document, a stray bracket, text, a NUL byte):
+        // whatever one twin makes of the section, the other must make of it too
+        for meta in ["null", "[]", "\"s\"", "0", "{\"a\":1}{\"b\":2}", "{\"a\":1} ]", "{\"a\":1} x", "{\"a\":1}\u{0}", "{\"a\":1},", "{}{}", "{\"a\":1}\n\n{\"a\":1}", "{\"a\":1} \n\t ", "\u{feff}{\"a\":1}", "{\"a\":1,}", "{\"a\":01}", "{'a':1}", "{\"a\":NaN}", "{\"a\":1e999}"] {
             use crate::spec::archive::{encode_foreign, Layout, Node};
             let f = encode_foreign(&[Node::Tile(SEntry::new(0, 0, 2, 1))], b"AA", Some(meta.as_bytes()), comp, &Layout::default(), SHeader { tile_type: 2, tile_compression: 1, ..SHeader::default() });
             nrej += 1;
